@@ -250,6 +250,29 @@ def ta_pristine_findings(first, rec, same_config=True):
     return out
 
 
+class Retired:
+    """instances the runtime has replaced: a CreateContainer for the same pod and container name with a new id
+    means the old instance is dead (its StopContainer is merely late). From then on it must hold nothing."""
+    def __init__(self):
+        self.admitted, self.retired = set(), set()
+
+    def step(self, ev, rec):
+        if rec['op'] == 'CreateContainer' and rec['reply']['class'] == 'ok':
+            self.admitted.add(ev['ctr']['id'])
+        if rec['op'] == 'CreateContainer' and ev.get('replaces') in self.admitted:
+            self.retired.add(ev['replaces'])
+        out = []
+        holders = set()
+        if rec.get('ta'):
+            holders = {g['id'] for g in (rec['ta'].get('grants') or [])}
+        if rec.get('bln'):
+            holders = {c for x in (rec['bln'].get('balloons') or []) for l in x['members'].values() for c in l}
+        for c in sorted(holders & self.retired):
+            out.append(F('C09', 'stopped-never-holds', 'replaced-instance-holds-resources',
+                         'container %s was replaced by a new instance of the same pod/name, but holds an allocation after %s' % (c, rec['op']), rec['seq']))
+        return out
+
+
 # ---------------------------------------------------------------- runtime view (C05) and opt-outs (C12)
 
 FIELDS = ('cpus', 'mems', 'shares', 'quota', 'period', 'memlimit')
